@@ -1,6 +1,6 @@
 """Contracts for menelaus.concept_drift.md3:MD3 (C19) -- skeleton proof of the warn / ask-the-oracle / confirm protocol.
 pandas / sklearn values are opaque (DataFrames by row count and column objects, the classifier and the user margin function
-as deterministic uninterpreted functions); calculate_distribution_statistics (k-fold loop) is an ASSUMED contract."""
+as deterministic uninterpreted functions); calculate_distribution_statistics is verified with its k-fold loop abstracted."""
 
 Q = "menelaus.concept_drift.md3:MD3"
 
@@ -38,7 +38,14 @@ def register(R):
     R.contract(Q + ".calculate_distribution_statistics", tags=("C19",), modular=True, params={"data": "DF"},
                result="Dict[len:Int,md:Real,md_std:Real,acc:Real,acc_std:Real]",
                ensures=["result['len'] == len(data)", "result['md_std'] >= 0 and result['acc_std'] >= 0"],
-               modifies=[], check_invariant=False)
+               modifies=[], check_invariant=False,
+               # verified with the k-fold loop ABSTRACTED (its body - fitting, margin signals, accuracies - is not verified; the two
+               # lists it fills are arbitrary): the statistics record is built from them by np.mean / np.std, nothing is modified
+               calls={"sklearn.base.clone": "any", "sklearn.model_selection.KFold": "any"},
+               loops={0: {"abstract": True, "index": "k0",
+                          "havoc_locals": ["margin_densities", "accuracies", "train_index", "test_index", "X_train", "X_test",
+                                           "y_train", "y_test", "signal_func_values", "margin_density", "y_pred", "accuracy"],
+                          "types": {"margin_densities": "AnyList", "accuracies": "AnyList"}, "invariant": []}})
     R.contract(Q + ".set_reference", tags=("C19",), params={"X": "DF", "y_true": "None", "y_pred": "None", "target_name": "Opaque[ColName]"},
                requires=["len(X) >= 1"],
                ensures=["%s['len'] == len(X)" % REF,
